@@ -426,6 +426,10 @@ def coerce_to(v: SV, td: TD) -> SV:
         return SV(TTagSet, OptTagSet.ots_val(v.z))
     if td == TBool and v.td == TTri:
         return SV(TBool, v.z == TRI_T)
+    if td.name == "str" and v.td.name == "str|None":
+        return SV(td, v.td.sort.os_val(v.z))
+    if td.name == "str|None" and v.td.name == "str":
+        return SV(td, td.sort.os_some(v.z))
     raise TypeError(f"cannot convert {v.td} to {td}")
 
 
